@@ -191,14 +191,20 @@ func (r *runner) checkLong(c Case, replayMode bool) {
 			r.c.Mismatch(replay{Kind: "prog", Case: &c}, impl.Final+"|"+rle(impl.Trace, delim), mf+"|"+rle(mt, delim),
 				"long-running program: "+describeDeparture(c, impl, mf, mt))
 		}
-		// the driver's two routes agree (proved: C05_long_run); re-checked on a few programs each run, the full
-		// evaluation of thousands of iterations being quadratic in the model
-		if r.longFull < 3 || replayMode {
-			r.longFull++
-			if full, err := r.m.Ask("run\tfixed\t" + c.G.model() + "\t" + c.modelProg()); err == nil && full != ans {
-				r.c.Mismatch(replay{Kind: "prog", Case: &c}, "model-iter "+rle(ans, delim), "model-run "+rle(full, delim), "the two routes through the Lean model disagree")
+		// the driver's two routes agree (proved: C05_long_run); re-checked each run on 300 iterations of every
+		// eighth program (the full evaluation threads the growing trace through every statement: quadratic)
+		if r.longFull%8 == 0 || replayMode {
+			mid := cloneCase(c)
+			if mid.Prog[0].N > 300 {
+				mid.Prog[0].N = 300
+			}
+			it, e1 := r.m.Ask("iter\tfixed\t" + mid.G.model() + "\t" + mid.modelProg())
+			full, e2 := r.m.Ask("run\tfixed\t" + mid.G.model() + "\t" + mid.modelProg())
+			if e1 == nil && e2 == nil && full != it {
+				r.c.Mismatch(replay{Kind: "prog", Case: &mid}, "model-iter "+rle(it, delim), "model-run "+rle(full, delim), "the two routes through the Lean model disagree")
 			}
 		}
+		r.longFull++
 		// the Lean spec and the Go reference, on the same program with three iterations
 		small := cloneCase(c)
 		small.Prog[0].N = 3
